@@ -106,6 +106,24 @@ def cases(tier, seed):
   for name in SCALE:
     for i in range(rep):
       add(name, 'scale', i)
+  # coarse integer grids (exactly zero sample covariances between some
+  # features): a rotation destroys such coincidences, the geometry is the same
+  for name in ('ITML', 'LSML', 'MMC', 'Covariance', 'RCA', 'LFDA'):
+    for i in range(6 if q else 60):
+      r = rng_for('c19-coarse', seed, name, i)
+      p_ = {}
+      if name in ('ITML', 'LSML'):
+        p_ = {'prior': 'covariance'}
+      elif name == 'MMC':
+        p_ = {'init': 'covariance'}
+      out.append({'est': name, 'rel': 'rotate', 'params': p_,
+                  'ds': {'seed': int(r.randint(2**31 - 1)),
+                         'd': int(r.randint(3, 6)),
+                         'classes': int(r.randint(2, 4)),
+                         'variant': ['coarse', 'factorial'][i % 2],
+                         'nmax': 44},
+                  'seed': int(r.randint(1000)),
+                  'rseed': int(r.randint(2**31 - 1))})
   # a training set with thousands of distinct points (anything that orders or
   # subsamples points by their raw coordinates shows under a rotation)
   for i in range(1 if q else 6):
